@@ -128,7 +128,9 @@ class ExcelModel:
         ), tolerance=0, absolute_tolerance=tolerance, **kwargs))
 
     def __getstate__(self):
-        return {'dsp': self.dsp, 'cells': {}, 'books': {}}
+        return {
+            'dsp': self.dsp, 'cells': {}, 'books': {}, 'basedir': self.basedir
+        }
 
     def _update_refs(self, nodes, refs):
         if nodes:
